@@ -237,6 +237,12 @@ def run_trunc(case, ctx):
         ctx.event('tiny-scale-in-a-late-core')
     n = info['n']
     d = len(n)
+    if d >= 2 and rng.random() < 0.12:
+        # one LATER core stored in float32 (values exactly representable)
+        # among float64 cores: the rounding still works in double precision
+        kq = int(rng.integers(1, d))
+        Y[kq] = Y[kq].astype(np.float32)
+        ctx.event('one-float32-core-among-float64')
     f = input_facts(Y)
     nrm, sv = f['nrm'], f['sv']
     if not nrm > 0:
